@@ -401,6 +401,50 @@ def gen_tree(sp, rng, depth, ish=None, kinds=None, cplx=True, log=None):
     raise AssertionError(c)
 
 
+def structured_trees(sp, rng):
+    """Systematic small trees: every binary combinator over every ORDERED pair of operand kinds that differ in how the
+    operand hands back its output (fresh array / the input object itself / a view / a non-contiguous view / a complex
+    scalar multiple / an FFT, whose output precision depends on the input dtype), on a non-square rank-2 shape.  Random generation reaches these aliasing / layout / dtype
+    combinations only sparsely.  Returns a list of (operator, log)."""
+    lin = sp.linop
+    sh = [2, 3]
+    marr = gint(rng, sh, True, -3, 3)
+
+    def operand(kind):
+        if kind == "fresh":
+            return lin.Multiply(sh, marr)
+        if kind == "self":
+            return lin.Identity(sh)
+        if kind == "view":
+            return lin.Reshape(sh, sh)
+        if kind == "noncontig":
+            return lin.Transpose([3, 2]) * lin.Reshape([3, 2], sh)
+        if kind == "cscalar":
+            return (1 + 2j) * lin.Identity(sh)
+        if kind == "fft":          # a real-dtype input comes back as complex64 (by design), a complex one as complex128
+            return lin.FFT(sh, axes=[-1])
+        raise ValueError(kind)
+    kinds = ["fresh", "self", "view", "noncontig", "cscalar", "fft"]
+    combs = {
+        "add": lambda a, b: a + b,
+        "sub": lambda a, b: a - b,
+        "compose": lambda a, b: a * b,
+        "hstack-none": lambda a, b: lin.Hstack([a, b], axis=None),
+        "hstack-axis": lambda a, b: lin.Hstack([a, b], axis=rng.choice([0, 1, -1])),
+        "vstack-none": lambda a, b: lin.Vstack([a, b], axis=None),
+        "vstack-axis": lambda a, b: lin.Vstack([a, b], axis=rng.choice([0, 1, -2])),
+        "diag-none": lambda a, b: lin.Diag([a, b], oaxis=None, iaxis=None),
+        "diag-axis": lambda a, b: lin.Diag([a, b], oaxis=rng.choice([0, -1]), iaxis=rng.choice([1, -2])),
+        "diag-mixed": lambda a, b: lin.Diag([a, b], oaxis=None, iaxis=0),
+    }
+    out = []
+    for cn, f in combs.items():
+        for k1 in kinds:
+            for k2 in kinds:
+                out.append((f(operand(k1), operand(k2)), ["struct:" + cn, k1, k2]))
+    return out
+
+
 def coord_val(rng, n):
     """one sampling coordinate for an axis of length n: generic, or sitting exactly on the ties of the kernel window
     (integer / half-integer / quarter positions: ceil and floor of k -+ W/2 coincide with grid points there)"""
